@@ -184,6 +184,7 @@ func C16(run *core.Run) {
 	for t := 0; t < nt; t++ {
 		conc := abs.NewConc()
 		g := NewGen(r, fmt.Sprintf("s%d_", t))
+		g.Extreme = t%3 == 1
 		mode := "cache"
 		cap := 1 + r.Intn(6)
 		var h mocrelay.Handler
@@ -397,6 +398,7 @@ func c16DumpRestore(run *core.Run, distinct *core.DistinctSet) {
 	for t := 0; t < nt; t++ {
 		conc := abs.NewConc()
 		g := NewGen(r, fmt.Sprintf("d%d_", t))
+		g.Extreme = t%3 == 1
 		cap := 1 + r.Intn(8)
 		h := mocrelay.NewCacheHandler(cap)
 		a := newHandlerAdapter(h)
